@@ -72,6 +72,11 @@ class ExprMixin:
                 return Builtin(name)
             if isinstance(v, type):
                 return ClassV(name)
+            if isinstance(v, _types.FunctionType) and name.startswith("_") and not name.startswith("__") \
+                    and getattr(v, "__module__", None) == getattr(self.module, "__name__", ""):
+                # a private helper function of the module under verification without a contract of its own (what "extract a helper"
+                # leaves behind): its real body is executed in place - still the code that runs
+                return self.inline_function(f"{self.module.__name__.split('.')[-1]}:{name}")
             if callable(v):
                 return Builtin(name)
             raise Unsupported(f"module global {name} of type {type(v).__name__}")
@@ -951,6 +956,28 @@ class ExprMixin:
                         o.items[k] = v
                     except IndexError:
                         raise PyRaise("IndexError")
+                    return
+            if isinstance(o, ListV) and isinstance(slice_node, ast.Slice) and slice_node.step is None and isinstance(v, Ref) \
+                    and isinstance(st.deref(v), ListV) and v.oid != obj.oid:
+                # lst[:0] = other (insert in front), lst[:] = other (replace), lst[len(lst):] is not recognised
+                lo = None if slice_node.lower is None else self.ev(slice_node.lower, st)
+                hi = None if slice_node.upper is None else self.ev(slice_node.upper, st)
+                if lo in (None, 0) and isinstance(lo, (int, type(None))) and (hi is None or (isinstance(hi, int) and hi == 0)):
+                    self.mutate_check(o, st, "slice assignment")
+                    ov = st.deref(v)
+                    if hi is None:          # whole contents replaced
+                        if ov.items is not None:
+                            o.items, o.t, o.origin = list(ov.items), None, None
+                        else:
+                            o.items, o.tag, o.t, o.origin = None, ov.tag, ov.t, None
+                        return
+                    if o.items is not None and ov.items is not None:
+                        o.items[:0] = ov.items
+                        return
+                    tag = o.tag if o.items is None else ov.tag
+                    ta, _ = self.list_term(o, st, tag)
+                    tb, _ = self.list_term(ov, st, tag)
+                    o.items, o.tag, o.t, o.origin = None, tag, z3.Concat(tb, ta), None
                     return
         from .values import AbsV
         if isinstance(obj, Ref) and isinstance(st.deref(obj), AbsV):
